@@ -131,6 +131,10 @@ func rawState(l *sqlLexer) stateFn {
 			return singleQuoteState
 		case '"':
 			return doubleQuoteState
+		case '`':
+			return backtickState
+		case '#':
+			return oneLineCommentState
 		case '$':
 			nextRune, _ := utf8.DecodeRuneInString(l.src[l.pos:])
 			if '0' <= nextRune && nextRune <= '9' {
@@ -170,6 +174,10 @@ func singleQuoteState(l *sqlLexer) stateFn {
 		l.pos += width
 
 		switch r {
+		case '\\':
+			// the parser honours backslash escapes: the next rune is part of the literal
+			_, width = utf8.DecodeRuneInString(l.src[l.pos:])
+			l.pos += width
 		case '\'':
 			nextRune, width := utf8.DecodeRuneInString(l.src[l.pos:])
 			if nextRune != '\'' {
@@ -194,9 +202,39 @@ func doubleQuoteState(l *sqlLexer) stateFn {
 		l.pos += width
 
 		switch r {
+		case '\\':
+			// the parser honours backslash escapes: the next rune is part of the literal
+			_, width = utf8.DecodeRuneInString(l.src[l.pos:])
+			l.pos += width
 		case '"':
 			nextRune, width := utf8.DecodeRuneInString(l.src[l.pos:])
 			if nextRune != '"' {
+				return rawState
+			}
+			l.pos += width
+		case utf8.RuneError:
+			if width != replacementcharacterwidth {
+				if l.pos-l.start > 0 {
+					l.parts = append(l.parts, l.src[l.start:l.pos])
+					l.start = l.pos
+				}
+				return nil
+			}
+		}
+	}
+}
+
+// backtickState consumes a quoted identifier. A placeholder inside it is part
+// of the identifier.
+func backtickState(l *sqlLexer) stateFn {
+	for {
+		r, width := utf8.DecodeRuneInString(l.src[l.pos:])
+		l.pos += width
+
+		switch r {
+		case '`':
+			nextRune, width := utf8.DecodeRuneInString(l.src[l.pos:])
+			if nextRune != '`' {
 				return rawState
 			}
 			l.pos += width
